@@ -325,6 +325,9 @@ func cmdCheck(args []string) int {
 			if o.Cover && o.Result == "unsat" && (o.Desc == "entry" || o.Desc == "hypotheses") {
 				vacuous = append(vacuous, o.Name)
 			}
+			if o.Cover && o.Vacuous {
+				brokenCheck = append(brokenCheck, "contract applied at a call contradicts the state it leaves unchanged (path feasible before, infeasible after): "+o.Name)
+			}
 		}
 		for n := range r.notes {
 			notes[n] = true
@@ -489,6 +492,8 @@ func loadKnownFindings(path, id string) map[string]string {
 	return out
 }
 
+var replayBudget = 12
+
 // writeReplay records a failed obligation: name, path, solver output, and the
 // counterexample where the solver gives one.
 func writeReplay(e *Engine, o *Obligation, file, workDir, repo, verif string) string {
@@ -497,10 +502,16 @@ func writeReplay(e *Engine, o *Obligation, file, workDir, repo, verif string) st
 	suffix := "no-failing-input-found"
 	if o.inst != nil {
 		fmt.Fprintf(&sb, "goal: %s\n", o.inst.Goal.S)
-		if vals := o.run.goalValues(o.inst, workDir, 10000); vals != "" {
-			fmt.Fprintf(&sb, "\n--- values of the goal's terms in a counter-model (%s\n", vals)
+		// models are asked for only where a solver answered sat, and only for
+		// the first few failures of a run (each query can take seconds)
+		m := ""
+		if o.Status == "failed" && replayBudget > 0 {
+			replayBudget--
+			if vals := o.run.goalValues(o.inst, workDir, 5000); vals != "" {
+				fmt.Fprintf(&sb, "\n--- values of the goal's terms in a counter-model (%s\n", vals)
+			}
+			m = o.run.model(o.inst, workDir, 5000)
 		}
-		m := o.run.model(o.inst, workDir, 10000)
 		if m != "" {
 			fmt.Fprintf(&sb, "\n--- solver model (%s)\n", firstLine(m))
 			sb.WriteString(filterModel(m))
